@@ -157,8 +157,11 @@ func (l *Gpos6_1) apply(ctx *Context, a, b int) int {
 	for i := p; i < a; i++ {
 		dx -= seq[i].Advance
 	}
-	seq[a].XOffset = dx
-	seq[a].YOffset = dy
+	// Align the two attachment points: mark1 is placed relative to the
+	// position where mark2 is drawn (mark2 usually carries the offset of
+	// its own attachment to the base glyph).
+	seq[a].XOffset = seq[p].XOffset + dx
+	seq[a].YOffset = seq[p].YOffset + dy
 	return a + 1
 }
 
